@@ -29,16 +29,27 @@ Theorem C14_quotient_exact : forall cls g, uniform cls g ->
   (has_cycle (quotient cls g) = true <-> has_cycle g = true).
 Proof. exact quotient_exact. Qed.
 
-Theorem C14_ssa_order : forall call ctl pre base len e post st n,
+Theorem C14_ssa_order : forall rdm call ctl pre base len e post st n,
   In n (nodes_from base len) ->
   Forall (leaves n) post ->
-  rd (exec_block call (pre ++ SAssign base len e :: post) ctl st) n =
-  union ctl (vbit (eval call (exec_block call pre ctl st) e) (N.to_nat (n - base))).
+  rd (exec_block rdm call (pre ++ SAssign base len e :: post) ctl st) n =
+  union ctl (vbit (eval rdm call (exec_block rdm call pre ctl st) e) (N.to_nat (n - base))).
 Proof. exact ssa_order. Qed.
 
-Theorem C14_ssa_entry : forall call ctl body st n,
-  Forall (leaves n) body -> rd (exec_block call body ctl st) n = rd st n.
+Theorem C14_ssa_entry : forall rdm call ctl body st n,
+  Forall (leaves n) body -> rd (exec_block rdm call body ctl st) n = rd st n.
 Proof. exact ssa_entry. Qed.
+
+(* the merge at the end of an if / case (model of SsaStore::merge) *)
+Theorem C14_merge_written : forall st outs n,
+  In n (flat_map (delta st) outs) ->
+  lookup n (merge st outs) = Some (merged outs n).
+Proof. exact merge_written. Qed.
+
+Theorem C14_merge_unwritten : forall st outs n,
+  ~ In n (flat_map (delta st) outs) ->
+  lookup n (merge st outs) = lookup n st.
+Proof. exact merge_unwritten. Qed.
 
 Theorem C14_atoms_sorted : forall spans eps,
   asorted (atomic_ranges spans eps) /\ Forall (fun a => s_len a <> 0) (atomic_ranges spans eps).
@@ -105,6 +116,8 @@ Print Assumptions C14_quotient_sound.
 Print Assumptions C14_quotient_exact.
 Print Assumptions C14_ssa_order.
 Print Assumptions C14_ssa_entry.
+Print Assumptions C14_merge_written.
+Print Assumptions C14_merge_unwritten.
 Print Assumptions C14_atoms_sorted.
 Print Assumptions C14_atoms_disjoint.
 Print Assumptions C14_atoms_inside.
